@@ -173,6 +173,24 @@ def build(seed, sc, chooser, victim, rules):
     pair = nodes.Pair(sim, sc, policy="ideal")
     peer = pair.s if victim == "c" else pair.c
     vic = pair.c if victim == "c" else pair.s
+    if sc.get("early_data") and victim == "s":
+        # a 0-RTT offering client (tlslite's own client never is one): its
+        # FIRST ClientHello carries the early_data extension
+        nch = [0]
+
+        def early_rule(msg, c):
+            if type(msg).__name__ == "ClientHello":
+                nch[0] += 1
+                if nch[0] == 1 and msg.extensions is not None:
+                    from tlslite.extensions import TLSExtension
+                    # (pre_shared_key has to stay the last extension)
+                    at = len(msg.extensions)
+                    if at and msg.extensions[-1].extType == 41:
+                        at -= 1
+                    msg.extensions.insert(
+                        at, TLSExtension(extType=42).create(bytearray()))
+            return None
+        rules = [early_rule] + list(rules)
     ip = byz.Interposer(peer.conn, rules)
     mt = taps.MsgTap(vic.conn)
     return sim, pair, peer, vic, ip, mt
@@ -297,7 +315,8 @@ def run(job, streams=None):
         json.dumps(dev), [G.name(t) for t in seq])
     legal = G.legal(op, ver, pname, seq, i, extra_t,
                     kex="srp" if sc.get("flavour") in ("srp", "srp_cert")
-                    else None)
+                    else None,
+                    early=bool(sc.get("early_data")) and victim == "s")
     # the message whose receipt completes the victim's handshake
     fins = [k for k, t in enumerate(seq) if t == G.FINISHED]
     comp = fins[-1] if fins else len(seq)
